@@ -195,9 +195,9 @@ func (s *stringObject) getOwnPropIdx(idx valueInt) Value {
 				enumerable: true,
 			}
 		}
-		return nil
 	}
 
+	// (an integer key beyond the characters is an ordinary property)
 	return s.baseObject.getOwnPropStr(idx.string())
 }
 
